@@ -250,3 +250,68 @@ func ruleCutsetMisuse(p *Prog, r *Report, pkgs map[string]bool) {
 	}
 	r.note("R-T: %d Trim/TrimLeft/TrimRight calls in scope", n)
 }
+
+// ruleShortCircuitSkips: R-SC.  `f(a) || f(b)` (or `if !f(a) { f(b) }`) skips
+// the second call whenever the first returns true.  When f has effects
+// (writes captured or global state, marks, emits, consumes device output)
+// the work for b silently does not happen.
+func ruleShortCircuitSkips(p *Prog, r *Report, pkgs map[string]bool, sm *summarizer) {
+	r.rule("R-SC", "No effectful call is skipped by short-circuit evaluation on the result of a sibling call: in this property's packages a call of a module function or closure that has effects (writes non-local state, emits, reads the device connection) is never controlled by a condition that is the result of another call site of the same callee in the same function (`f(a) || f(b)`, `f(a) && f(b)`, `if !f(a) { f(b) }`). Audited exceptions (deliberate fallbacks) are rows of tables/shortcircuit_audit.tsv.")
+	ex := map[string]string{}
+	for _, row := range readTable("shortcircuit_audit.tsv", 3) {
+		ex[row[0]+"|"+row[1]] = row[2]
+	}
+	n := 0
+	for _, fn := range allModFuncs(p) {
+		if fn.Synthetic != "" || !pkgs[pkgOfFunc(fn)] {
+			continue
+		}
+		calls := callsOf(fn)
+		for _, bcs := range calls {
+			g := bcs.Static
+			if g == nil || !isModFunc(g) || bcs.Defer {
+				continue
+			}
+			sum := sm.sums[g]
+			effect := sum != nil && (len(sum.Writes) > 0 || len(sum.Emits) > 0)
+			if !effect {
+				for _, c2 := range callsOf(g) {
+					if isConnRead(c2) {
+						effect = true
+					}
+				}
+			}
+			if !effect {
+				continue
+			}
+			n++
+			for _, acs := range calls {
+				if acs.In == bcs.In || acs.Static != g || acs.In.Value() == nil {
+					continue
+				}
+				for _, ob := range fn.Blocks {
+					i := ifOf(ob)
+					if i == nil {
+						continue
+					}
+					c, _ := stripNot(i.Cond)
+					if c != acs.In.Value() {
+						continue
+					}
+					for k := range ob.Succs {
+						if edgeDominates(ob, k, bcs.In.Block()) {
+							key := fnDisplay(fn) + "|" + fnDisplay(g)
+							if why, ok := ex[key]; ok {
+								r.ok("R-SC", "skipped-sibling|"+key, p.ipos(bcs.In), "audited fallback: "+why)
+							} else {
+								r.fail("R-SC", "skipped-sibling|"+key, p.ipos(bcs.In), "the call of "+fnDisplay(g)+" at "+p.ipos(bcs.In)+" runs only for one outcome of the sibling call at "+p.ipos(acs.In),
+									"short-circuit evaluation skips an effectful call: its writes, emissions or reads of the device do not happen")
+							}
+						}
+					}
+				}
+			}
+		}
+	}
+	r.note("R-SC: %d call sites of effectful module functions examined", n)
+}
